@@ -748,8 +748,6 @@ func diffClass(a, b string, fa, fb *GoFile) string {
 // are t<file>p<n> / t<file>r<n>) - the name of an inline or per-branch type, built from the path that reached it.
 var derivedName = regexp.MustCompile(`T[0-9]+[PR][0-9]+`)
 
-var declTypeName = regexp.MustCompile(`^(?:type |func \(\*?)(\w+)`)
-
 // derivedOnly: all listed declarations belong to types with derived names, in a world where a merged target can be
 // reached by several compositions.
 func derivedOnly(keys []string) string {
@@ -757,8 +755,8 @@ func derivedOnly(keys []string) string {
 		return ""
 	}
 	for _, k := range keys {
-		m := declTypeName.FindStringSubmatch(k)
-		if m == nil || !derivedName.MatchString(m[1]) {
+		// type X, func (*X) M, const X_Value, var enumValues_X: the declared name must hold a derived segment
+		if !derivedName.MatchString(k) {
 			return ""
 		}
 	}
